@@ -40,3 +40,28 @@ func TestVerifSys(t *testing.T) {
 		run(Random(r.Rng, false))
 	}
 }
+
+// TestVerifSysSlices (property C04, stream "slices"): rolled-out ObjectSets keeping objects in
+// ObjectSlices are archived / deleted while third parties delete slices at arbitrary points.
+func TestVerifSysSlices(t *testing.T) {
+	r := verifkit.Open(t, "SYSSLICES")
+	defer r.Close()
+	run := func(s Scn) {
+		out := verifkit.Guard(func() string { return Exec(s) })
+		r.Emit(s, out, SlicedTags(s, out)...)
+	}
+	for _, line := range r.Fixed() {
+		var s Scn
+		if err := json.Unmarshal([]byte(line), &s); err != nil {
+			t.Fatalf("bad scenario: %v", err)
+		}
+		run(s)
+	}
+	if r.ReplayOnly() {
+		return
+	}
+	n := r.Pick(1500, 6000)
+	for i := 0; i < n; i++ {
+		run(Sliced(r.Rng))
+	}
+}
